@@ -173,9 +173,17 @@ def inplace_hyps(dem, params):
         a_ = [p for p in ps if p.name in ROLE_A]
         b_ = [p for p in ps if p.name in ROLE_B]
         nrm = lambda p: p.dty.replace(' const', '').replace(' ', '')
+        hs = []
         if len(a_) == 1 and len(b_) == 1 and nrm(a_[0]) == 'E*' and nrm(b_[0]) == 'E*':
-            return [{b_[0].name: a_[0].name}]
-        return []
+            hs.append({b_[0].name: a_[0].name})
+        # a register has no stride: a register result may be the same object as a register operand whatever the other
+        # operand's addressing is (acc = acc op b[k * stride])
+        c_ = [p for p in ps if p.name in ROLE_C]
+        if len(c_) == 1 and nrm(c_[0]) in ('V4&', 'V8&'):
+            for q in a_ + b_:
+                if nrm(q) == nrm(c_[0]):
+                    hs.append({q.name: c_[0].name})
+        return hs
     c = [p for p in ps if p.name in ROLE_C]
     a = [p for p in ps if p.name in ROLE_A]
     b = [p for p in ps if p.name in ROLE_B]
